@@ -49,6 +49,12 @@ impl<T> DeqNode<T> {
     pub(crate) fn next_node_ptr(this: NonNull<Self>) -> Option<NonNull<DeqNode<T>>> {
         unsafe { this.as_ref() }.next
     }
+
+    #[cfg(mini_moka_verif)]
+    #[allow(clippy::type_complexity)]
+    pub(crate) fn verif_links(&self) -> (Option<NonNull<DeqNode<T>>>, Option<NonNull<DeqNode<T>>>) {
+        (self.prev, self.next)
+    }
 }
 
 /// Cursor is used to remember the current iterating position.
@@ -101,6 +107,25 @@ impl<T> Deque<T> {
 
     pub(crate) fn region(&self) -> CacheRegion {
         self.region
+    }
+
+    /// (head, tail, len, cursor) where cursor is 0: none, 1: done, else node address.
+    #[cfg(mini_moka_verif)]
+    #[allow(clippy::type_complexity)]
+    pub(crate) fn verif_raw(
+        &self,
+    ) -> (
+        Option<NonNull<DeqNode<T>>>,
+        Option<NonNull<DeqNode<T>>>,
+        usize,
+        usize,
+    ) {
+        let cursor = match &self.cursor {
+            None => 0,
+            Some(DeqCursor::Done) => 1,
+            Some(DeqCursor::Node(n)) => n.as_ptr() as usize,
+        };
+        (self.head, self.tail, self.len, cursor)
     }
 
     #[cfg(test)]
